@@ -34,8 +34,8 @@ def _coselected(shape, cards, i, j, par=None, link=None) -> bool:
     return True
 
 
-def sound(shape, cards, m=None) -> bool:
-    m = R.build(shape, cards) if m is None else m
+def sound(shape, cards, m=None, abstract=None) -> bool:
+    m = R.build(shape, cards, abstract=abstract) if m is None else m
     feats = _index(m)
     idx = {id(f): i for i, f in enumerate(feats)}
     from .common import result_twice
@@ -139,7 +139,7 @@ def batch_e2(max_n, lo, hi, seed):
 def conditions(tier, seed):
     N = 5 if tier == 'quick' else 7
     return cards_conditions('c15_sound', 'c15', 'sound', indexed_shapes(N), 30 if tier == 'quick' else 90,
-                            'atomic sets: partition, co-selection (closed form), mandatory chains')
+                            'atomic sets: partition, co-selection (closed form), mandatory chains', flags=True)
 
 
 def batches(tier, seed):
